@@ -712,6 +712,18 @@ func runC19(cfg *runCfg) error {
 			}
 			fail(ci, "fidelity", class, fmt.Sprintf("markdown %q: %s", src, detail), map[string]interface{}{"markdown": src})
 		}
+		// the two ways of asking for the headings of the converted document agree: as many entries are listed as are
+		// counted (headings may repeat their text)
+		var hps []panicRec
+		guard("heading accessors", &hps, func() {
+			total := 0
+			for _, n := range d.GetHeadingCount() {
+				total += n
+			}
+			if listed := len(d.ListHeadings()); listed != total {
+				fail(ci, "fidelity", "heading_accessors", fmt.Sprintf("markdown %q: ListHeadings lists %d headings, GetHeadingCount counts %d", src, listed, total), map[string]interface{}{"markdown": src})
+			}
+		})
 		if b, e := d.ToBytes(); e != nil {
 			fail(ci, "saves", "save_error", e.Error(), nil)
 		} else if v, e := readPackage(b); e != nil || len(v.checkC01()) > 0 {
